@@ -163,5 +163,9 @@ func (r *Replayer) Choose(opts []vs.Option) int {
 	}
 	c := r.List[r.pos]
 	r.pos++
+	if c < 0 || c >= len(opts) {
+		r.Over = true // not a recorded execution of this tree: fall back to the default
+		return 0
+	}
 	return c
 }
